@@ -365,6 +365,39 @@ Definition proc_ctx (ps : list procdef) (assumed : list name) (p : procdef) : ct
   ctx_of_names (flat_map (fun fn => match alookup (ident fn) (top_names ps assumed) with Some n => [n] | None => [] end)
                          (proc_uses p)).
 
+(* The processes do not use each other cyclically (a cycle of top-level processes waiting for each
+   other deadlocks).  Process i depends on process j when a free name of i's body is a provider name
+   of j.  Stated with the iteration the checker runs (repeatedly mark the processes all of whose
+   dependencies are marked; acyclic iff everything gets marked): deps_acyclic.  Its declarative
+   reading is ProcsGrounded below: the "uses" relation among the process declarations is well founded
+   — every process is Grounded, i.e. all the processes it uses are (inductively) Grounded.  The
+   equivalence deps_acyclic ps = true <-> ProcsGrounded ps (for distinct provider names) is
+   proofs/Acyclic.v (procs_grounded_iff). *)
+Definition provider_index (ps : list procdef) (x : string) : option nat :=
+  (fix go (l : list procdef) (i : nat) (acc : option nat) : option nat :=
+     match l with
+     | [] => acc
+     | q :: r => go r (S i) (if str_mem x (map ident (pr_providers q)) then Some i else acc)
+     end) ps 0 None.
+Definition proc_deps (ps : list procdef) (p : procdef) : list nat :=
+  flat_map (fun fn => match provider_index ps (ident fn) with Some j => [j] | None => [] end) (proc_uses p).
+Definition nat_mem (i : nat) (l : list nat) : bool := existsb (Nat.eqb i) l.
+Fixpoint mark_rounds (fuel : nat) (deps : list (list nat)) (done : list nat) : list nat :=
+  match fuel with
+  | O => done
+  | S f =>
+    mark_rounds f deps (done ++ filter (fun i => negb (nat_mem i done) && forallb (fun j => nat_mem j done) (nth i deps []))
+                                      (seq 0 (length deps)))
+  end.
+Definition deps_acyclic (ps : list procdef) : bool :=
+  (length (mark_rounds (length ps) (map (proc_deps ps) ps) []) =? length ps)%nat.
+
+Inductive Grounded (ps : list procdef) : procdef -> Prop :=
+| grounded p :
+    (forall fn q, In fn (proc_uses p) -> In q ps -> In (ident fn) (map ident (pr_providers q)) -> Grounded ps q) ->
+    Grounded ps p.
+Definition ProcsGrounded (ps : list procdef) : Prop := forall p, In p ps -> Grounded ps p.
+
 Section Program.
 Variable teq : tenv -> sty -> sty -> Prop.
 
@@ -401,7 +434,9 @@ Record ProgOKe (pe : program) : Prop := {
   pk_uses_defined : forall x, In x (flat_map (fun p => map ident (proc_uses p)) (p_procs pe)) ->
                     In x (map ident (p_assumed pe)) \/ In x (all_providers (p_procs pe));
   pk_assumed_used : forall x, In x (map ident (p_assumed pe)) ->
-                    In x (flat_map (fun p => map ident (proc_uses p)) (p_procs pe))
+                    In x (flat_map (fun p => map ident (proc_uses p)) (p_procs pe));
+  (* the processes do not use each other cyclically *)
+  pk_acyclic : deps_acyclic (p_procs pe) = true
 }.
 
 Definition ProgOK (p : program) : Prop := exists pe, elab_program p pe /\ ProgOKe pe.
